@@ -12,7 +12,7 @@
     [ProofExp.instantiate] cannot be serialised at all, C08-D10).  The checker is
     [ML/Machine.v] with [guards_sound]. *)
 From Coq Require Import NArith List Bool.
-From Pi2 Require Import ML.Syntax ML.Subst ML.Machine PTerm.Model PTerm.Facts PTerm.MapSym PTerm.Compile PTerm.LibWf Gen.C02Shipped.
+From Pi2 Require Import ML.Syntax ML.Subst ML.Machine PTerm.Model PTerm.Facts PTerm.MapSym PTerm.Compile PTerm.LibWf Gen.C02Shipped PTerm.PyRt Gen.PyProofDSL PTerm.GenPyProofDSLAgree.
 Import ListNotations.
 Open Scope N_scope.
 
@@ -114,3 +114,32 @@ Example C02_compile_hypotheses_satisfiable :
   dynamic ex_term = true /\ wf_for_checker [ex_ax] ex_term = true /\ loads_ok ex_term (s_mem ex_state) = true /\
   exists tbl' s' bs, compile [LMemo [ex_ax; Sym 7]] [ex_ax] ex_term [9; 7] ex_state = Some (tbl', s', bs, Imp (Sym 7) ex_ax).
 Proof. vm_compute. repeat split. eexists _, _, _. reflexivity. Qed.
+
+(** ** Tie to the source by TRANSLATION (Gen/PyProofDSL.v, regenerated on every run; agreement proofs in
+    PTerm/GenPyProofDSLAgree.v): which interpreter calls a proof term makes, in which order, through which
+    transformer stack, and which phase publishes what, are read off the current text of proof.py /
+    basic_interpreter.py / interpreter.py / interpreter_transformer.py / optimizing_interpreters.py.  The bytes per
+    call ([ser_run]: stateful_interpreter.py + serializing_interpreter.py) remain tied differentially. *)
+Theorem C02_source_compile_correct : forall ls axs t tbl s tbl' s' bs c,
+  dynamic t = true -> wf_for_checker axs t = true ->
+  mem_shape_ok (s_mem s) -> loads_ok t (s_mem s) = true ->
+  gen_compile ls axs t tbl s = Some (tbl', s', bs, c) ->
+  option_map th_conc (build axs t) = Some c /\
+  forall T, ext T tbl' -> forall ph K C,
+    exec guards_sound ph bs (mkst K (map (map_term T) (s_mem s)) C)
+    = Some (mkst (TProved (map_sym T c) :: K) (map (map_term T) (s_mem s')) C).
+Proof. intros until c. rewrite gen_compile_eq, gen_static_conc_agree. apply compile_correct. Qed.
+Print Assumptions C02_source_compile_correct.
+
+Theorem C02_source_module_accepted : forall memo m g c p,
+  module_ok m = true -> gen_serialize memo m = Some (g, c, p) ->
+  exists st, verify guards_sound g c p = Some st.
+Proof. intros memo m g c p. rewrite gen_serialize_eq. apply module_accepted. Qed.
+Print Assumptions C02_source_module_accepted.
+
+(** the translated gamma phase on an import TREE publishes the model's flat axiom list (sub-modules first) *)
+Theorem C02_source_gamma_phase_order : forall b ls t mem,
+  tree_gamma t (stack_obj b ls) false (mkrst mem Gamma)
+  = lift_u Gamma (gamma_calls (cfg_inS ls) (cfg_loads b ls) (flat_axioms t) mem).
+Proof. exact tree_gamma_agree. Qed.
+Print Assumptions C02_source_gamma_phase_order.
